@@ -11,6 +11,7 @@ package server
 // group (one split x one ending, all request shapes) it evaluates the property itself (L2).
 
 import (
+	"bufio"
 	"bytes"
 	"context"
 	"encoding/json"
@@ -1289,6 +1290,7 @@ func (h *vc17H) monitors(g vc17Group, chunks []llm.CompletionResponse, results m
 			}
 		}
 		native := s.ep == "gen" || s.ep == "chat"
+		h.branches(s, g, res)
 		// --- a native stream ends with exactly one final message or one error
 		if native && s.streaming() {
 			a := vc17Aggregate(res.evs)
@@ -1537,6 +1539,141 @@ func (h *vc17H) monitors(g vc17Group, chunks []llm.CompletionResponse, results m
 	}
 }
 
+// branches: which branch of the handlers / writers / client (= of the model, L1 being exact) this reply
+// came from, read off the real reply; the check fails closed when a branch the theorems talk about was
+// never exercised (vlib/checks/c17.py REQUIRED_COUNTERS)
+func (h *vc17H) branches(s vc17Shape, g vc17Group, res vc17Res) {
+	c := func(name string) { h.out.Count("br_" + name) }
+	evs := res.evs
+	switch s.ep {
+	case "gen", "chat":
+		if s.streaming() {
+			if res.status != 200 {
+				c("native_stream_prefail_" + g.flt())
+				return
+			}
+			callMsgs, sent, maxIdx := 0, false, 0
+			for i, e := range evs {
+				switch e.tag {
+				case "e":
+					switch {
+					case e.text == errIncompleteResponse.Error():
+						c("native_stream_incomplete_error")
+					case e.text == vc17TokMsg:
+						c("gen_stream_context_tokenize_error")
+					case e.text == vc17BoomMsg:
+						c("native_stream_completion_error")
+					}
+				case "c":
+					if len(e.calls) > 0 {
+						callMsgs++
+						if i < len(evs)-1 {
+							c("tools_stream_calls_then_reset")
+						}
+						if e.done {
+							c("tools_stream_calls_in_final_message")
+						}
+						for _, tc := range e.calls {
+							maxIdx = max(maxIdx, tc.index)
+						}
+					} else if e.done && s.tools {
+						switch {
+						case sent:
+							c("tools_stream_final_after_calls")
+						case e.text != "" && len(g.contents()) >= 2:
+							c("tools_stream_final_flushes_buffer")
+						default:
+							c("tools_stream_final_plain")
+						}
+					}
+					sent = sent || len(e.calls) > 0
+				case "g":
+					if e.done && e.ctx != "-" {
+						c("gen_stream_final_with_context")
+					}
+					if e.done && e.ctx == "-" {
+						c("gen_stream_final_raw")
+					}
+				}
+			}
+			if callMsgs >= 2 {
+				c("tools_stream_several_call_messages")
+			}
+			if maxIdx >= 1 {
+				c("tools_stream_index_above_0")
+			}
+			if len(evs) == 0 {
+				c("native_stream_empty")
+			}
+		} else if len(evs) == 1 {
+			e := evs[0]
+			switch {
+			case e.tag == "e" && g.expectErr(s) == "*":
+				c("native_once_incomplete_error")
+			case e.tag == "e" && g.flt() != "none" && e.text != vc17BoomMsg:
+				c("native_once_fault_" + g.flt())
+			case e.tag == "e":
+				c("native_once_completion_error")
+			case len(e.calls) >= 2:
+				c("tools_once_several_calls")
+			case len(e.calls) == 1:
+				c("tools_once_one_call")
+			case s.tools:
+				c("tools_once_no_call")
+			}
+		}
+	case "oachat", "oacmpl":
+		for i, e := range evs {
+			switch e.tag {
+			case "E":
+				if s.streaming() && res.status == 200 {
+					c("openai_stream_error_event")
+				} else {
+					c("openai_error_body")
+				}
+			case "u":
+				c("openai_stream_usage_chunk")
+			case "k":
+				if e.finish != nil && *e.finish == "tool_calls" {
+					c("openai_stream_finish_tool_calls")
+				} else if e.finish != nil {
+					c("openai_stream_finish_native")
+				}
+				if len(e.calls) > 0 && i < len(evs)-1 {
+					c("openai_stream_delta_with_calls")
+				}
+			case "t":
+				if e.finish != nil {
+					c("openai_cmpl_stream_finish_native")
+				}
+				if e.usage != nil {
+					c("openai_cmpl_chunk_zero_usage")
+				}
+			case "K":
+				if e.finish != nil && *e.finish == "tool_calls" {
+					c("openai_once_finish_tool_calls")
+				}
+				if e.named == "0" {
+					c("openai_once_zero_value_reply")
+				}
+			}
+		}
+	case "cgen", "cchat":
+		maxLine := 0
+		for _, n := range res.lens {
+			maxLine = max(maxLine, n)
+		}
+		switch {
+		case maxLine >= h.climit:
+			c("client_line_at_or_above_limit")
+		case res.cerr != "":
+			c("client_returns_error_line")
+		default:
+			c("client_delivers_all")
+		}
+	}
+}
+
 // ---------------------------------------------------------------- generators
 
 var vc17Corpus = [][]string{
@@ -1563,6 +1700,13 @@ var vc17Corpus = [][]string{
 	{`{"name":"f","arguments":{"o":{"ids":[9007199254740993,1.0000000000000001,`, `{"n":-1e400}],"m":{"k":0.1}},"k":1,"k":2}}`},
 	{`{"name":"f","arguments":{"s":"line\nbreak \"q\" \\ \u00e9 \ud83d\ude00 <tag>&amp; `, "\U0001F600 \u2028 é", `","t":"\u0000\t"}}`},
 	{`{"name":"f","arguments":{"long":"`, strings.Repeat("0123456789abcdef", 160), `","n":12345678901234567890}}`},
+	// string arguments holding JSON-structural characters (code, regexes, format strings, quoted JSON): nothing
+	// outside a real JSON parse may decide whether the buffered text is a complete call
+	{`{"name":"search_files","arguments":{"pattern":"func main() {",`, `"path":"cmd"}}`},
+	{`{"name":"grep","arguments":{"re":"^\\s*}\\s*$",`, `"flags":"]["}}`},
+	{`{"name":"say","arguments":{"text":":-} {{ .Prompt }} ]"`, `}}`, ` `, `{"name":"say","arguments":{"text":"}{"}}`},
+	{`{"name":"emit","arguments":{"json":"{\"name\":\"x\",\"arguments\":{}}",`, `"n":1}}`},
+	{`}{ `, `{"name":"a","arguments":{"k":"{"}}`, ` }`},
 }
 
 var vc17Frags = []string{
@@ -1579,6 +1723,8 @@ var vc17ArgLits = []string{
 	"1e2", "1E+2", "1e21", "1e-7", "1e308", "1.7976931348623157e308", "1.7976931348623159e308", "1e309", "1e999", "-1e999",
 	"1e-400", "5e-324", "2.5e-324", "-0", "-0.0", "0e0", "true", "null",
 	`"plain"`, `"esc \\ \" \n \t \u00e9 \ud83d\ude00 \u2028 <&>"`, `"\u0000"`, `""`,
+	// JSON-structural characters inside strings
+	`"{"`, `"}"`, `"func main() {"`, `"}}"`, `"["`, `"]"`, `"a{b}c}"`, `":-}"`, `",\":{"`, `"{\"name\":\"z\",\"arguments\":{}}"`, `"\\{"`,
 }
 
 func vc17ArgValue(r *zzverif.Rng, depth int) string {
@@ -1844,6 +1990,11 @@ func TestVerifC17Table(t *testing.T) {
 		fmt.Fprintf(&b, "%d %s\n", i, zzverif.Hex([]byte(llm.DoneReason(i).String())))
 	}
 	if err := os.WriteFile(zzverif.OutDir()+"/table.txt", []byte(b.String()), 0o644); err != nil {
+		t.Fatal(err)
+	}
+	// the two fixed error texts the model contains: the handlers' errIncompleteResponse and the scanner's ErrTooLong
+	consts := fmt.Sprintf("incomplete %s\ntoolong %s\n", zzverif.Hex([]byte(errIncompleteResponse.Error())), zzverif.Hex([]byte(bufio.ErrTooLong.Error())))
+	if err := os.WriteFile(zzverif.OutDir()+"/consts.txt", []byte(consts), 0o644); err != nil {
 		t.Fatal(err)
 	}
 }
